@@ -214,15 +214,22 @@ def main() -> None:
             "name": "gtirb_static",
             "path": "/verif/gtirb_static",
             "serves_properties": sorted(BUILT),
-            "kind_free_text": "repository-specific static analyser over Python ast: class/MRO model "
-                              "incl. collections.abc mixins, statement CFG with dominators "
-                              "(networkx), proto3 schema parser, schema-typed dataflow, term "
-                              "normalisation, wire-shape abstraction, in-memory sensitivity audit",
+            "kind_free_text": "repository-specific static analyser over Python ast: normal form of the "
+                              "parsed tree (private helpers inlined, temporaries substituted, call "
+                              "style and statement shapes unified), class/MRO model incl. "
+                              "collections.abc mixins, statement CFG with dominators and dominating "
+                              "facts (networkx), path summaries of loop-free functions, proto3 "
+                              "schema parser, schema-typed dataflow, term normalisation, wire-shape "
+                              "abstraction; thorough tier adds an in-memory sensitivity audit "
+                              "(catalogue of seeded faults and twins) and a corpus audit (stored "
+                              "behaviour-preserving patches must stay silent, stored seeded changes "
+                              "must be reported)",
         }],
         "checks": checks,
         "notes": "All checks are static (no gtirb import, no execution). Exit 0 = every structural "
                  "obligation discharged; 1 = violation not listed in known_findings.txt; 2 = "
-                 "ANALYSIS-ERROR. See DESIGN.md.",
+                 "ANALYSIS-ERROR (vanished anchor, construct outside the fragment, or - thorough "
+                 "tier only - an audit variant misjudged). See DESIGN.md.",
         "not_applicable": [{"property_id": p, "reason": REASON_PENDING} for p in props if p not in BUILT],
     }
     (VERIF / "MANIFEST.json").write_text(json.dumps(m, indent=1) + "\n")
